@@ -259,6 +259,26 @@ func propBinary(t *rapid.T, f inst.Field) {
 		return
 	case "Exp":
 		k, kc := gen.Int(t, f.Q(), rep.Scale(4*f.Q().BitLen(), 8*f.Q().BitLen()), "k")
+		if rapid.IntRange(0, 3).Draw(t, "kord") == 0 {
+			// exponents around multiples of the group order q-1 (the period of k -> x^k): m*(q-1)+d with m small,
+			// a power of two, or wide — the inputs on which any "reduce the exponent first" shortcut is decided
+			var m *big.Int
+			switch rapid.IntRange(0, 2).Draw(t, "kordm") {
+			case 0:
+				m = big.NewInt(int64(rapid.IntRange(1, 5).Draw(t, "kordsmall")))
+			case 1:
+				m = new(big.Int).Lsh(big.NewInt(1), uint(rapid.IntRange(1, 3*f.Q().BitLen()).Draw(t, "kordpow")))
+			default:
+				m = new(big.Int).SetBytes(rapid.SliceOfN(rapid.Byte(), 1, 2*((f.Q().BitLen()+7)/8)).Draw(t, "kordwide"))
+			}
+			k = new(big.Int).Mul(m, new(big.Int).Sub(f.Q(), big.NewInt(1)))
+			k.Add(k, big.NewInt(int64(rapid.IntRange(-1, 1).Draw(t, "kordd"))))
+			kc = "near_m(q-1)"
+			if rapid.Bool().Draw(t, "kordneg") {
+				k.Neg(k)
+				kc = "neg_" + kc
+			}
+		}
 		key = fmt.Sprintf("%s Exp(%s,%s)", f.Name(), xv.Text(16), k.Text(16))
 		z.Exp(x, k)
 		want = R.Exp(xv, k)
